@@ -63,6 +63,12 @@ def nsStep (builtins : List Str) (st : NsState) (j : Json) : Except String NsSta
     match registerMangled builtins st.ns (← fieldS j "base") (← fieldNat j "obj") 10000 with
     | some (n, ns') => return { ns := ns', out := st.out ++ [encStr n] }
     | none => return { st with out := st.out ++ [Json.null] }
+  | "mangle_raw" =>
+    -- `register_mangled` on raw text: sanitise-or-underscore first (`idcont` = identifier characters of the text)
+    let ic ← fieldS j "idcont"
+    match registerMangledRaw (oracle ic) pyKeywords builtins st.ns (← fieldS j "base") (← fieldNat j "obj") 10000 with
+    | some (n, ns') => return { ns := ns', out := st.out ++ [encStr n] }
+    | none => return { st with out := st.out ++ [Json.null] }
   | _ => throw s!"bad namespace op {k}"
 
 def encSpec (s : NameSpec) : Json :=
@@ -94,6 +100,16 @@ def handle : Protocol.Handler := fun j => do
     let ic ← fieldS j "idcont"
     return encStr (sanitize (oracle ic) pyKeywords s)
   | "keywords" => return listJ (pyKeywords.map encStr)
+  | "closure" =>
+    -- the identifier written into the source for a function named `s`, and the tokens of `def <it>(`
+    let s ← fieldS j "s"
+    let ic ← fieldS j "idcont"
+    let cn := closureName (oracle ic) pyKeywords s
+    return Json.mkObj [("name", encStr cn),
+      ("keyword", Json.bool ((Tok.name cn).isKeyword pyKeywords)),
+      ("header", match tokenize (defHeader cn) with | none => Json.null | some ts => listJ (ts.map encTok)),
+      ("call", match tokenize (callHead cn) with | none => Json.null | some ts => listJ (ts.map encTok))]
+  | "idcont_ascii" => return listJ (((List.range 128).filter isIdCont).map natJ)
   | "tokenize" =>
     let s ← fieldS j "s"
     let fams ← (← fieldArr j "fams").mapM decStr
